@@ -1,6 +1,19 @@
 from . import rules_panic, rules_c03, inputs
 
 
+CONTROL_KEYS = ['PANIC-SITE/<ctl_parse::Num as std::str::FromStr>::from_str/std::result::Result::<T, E>::unwrap',
+                'PANIC-SITE/<ctl_parse::Num as std::str::FromStr>::from_str/<std::vec::Vec<T, A> as std::ops::Index<I>>::index',
+                'PANIC-SITE/<ctl_parse::Num as std::str::FromStr>::from_str/Overflow']
+
+
+def controls(cprog, cfacts):
+    """an unwrap on parsed input, an unchecked index and an unchecked subtraction must all be reported"""
+    from . import core
+    c = core.Ctx('C19', 'control', 'other')
+    rules_panic.check_parsers(c, cprog, ['ctl_parse::Num'], 'C19')
+    keys = [f['key'] for f in c.findings]
+    return [k for k in CONTROL_KEYS if k not in keys]
+
 def run(ctx, prog, facts, tier):
     I = rules_panic.check_c19(ctx, prog, tier)
     ctx.exhaustive = False
